@@ -82,6 +82,7 @@ def gen_reduce_case(
     min_counts=None,
     sort_choices=None,
     unsorted_expected_p: float = 0.0,
+    by_dask_any_method: bool = False,
 ) -> dict:
     func = tape.choice("gen.func", funcs)
     method = tape.choice("gen.method", methods)
@@ -163,7 +164,7 @@ def gen_reduce_case(
             c = gen_chunks(tape, n, max_blocks=max_blocks, style="random")
             tries += 1
         chunks.append(c)
-    by_dask = tape.chance("gen.bydask", by_dask_p) and method in (None, "map-reduce")
+    by_dask = tape.chance("gen.bydask", by_dask_p) and (by_dask_any_method or method in (None, "map-reduce"))
     expected_mode = tape.choice("gen.expected", expected_modes)
     kwargs: dict = {"func": func}
     present = [u for u in np.asarray(uniq).tolist()]
